@@ -9,6 +9,7 @@ import (
 	"encoding/json"
 	"errors"
 	"fmt"
+	"strconv"
 
 	internaljson "github.com/modelcontextprotocol/go-sdk/internal/json"
 )
@@ -37,6 +38,26 @@ func MakeID(v any) (ID, error) {
 		return StringID(v), nil
 	}
 	return ID{}, fmt.Errorf("%w: invalid ID type %T", ErrParse, v)
+}
+
+// decodeID decodes the "id" member of a message. Integer identifiers are
+// parsed as int64 directly rather than through float64, so that every value in
+// the int64 range is preserved exactly.
+func decodeID(raw json.RawMessage) (ID, error) {
+	raw = bytes.TrimSpace(raw)
+	if len(raw) == 0 {
+		return ID{}, nil
+	}
+	if raw[0] != '"' {
+		if i, err := strconv.ParseInt(string(raw), 10, 64); err == nil {
+			return Int64ID(i), nil
+		}
+	}
+	var v any
+	if err := internaljson.Unmarshal(raw, &v); err != nil {
+		return ID{}, fmt.Errorf("%w: invalid ID: %v", ErrParse, err)
+	}
+	return MakeID(v)
 }
 
 // Message is the interface to all jsonrpc2 message types.
@@ -176,7 +197,7 @@ func EncodeIndent(msg Message, prefix, indent string) ([]byte, error) {
 // when its value is the empty string (see go-sdk#976).
 type wireDecode struct {
 	VersionTag string          `json:"jsonrpc"`
-	ID         any             `json:"id,omitempty"`
+	ID         json.RawMessage `json:"id,omitempty"`
 	Method     json.RawMessage `json:"method"`
 	Params     json.RawMessage `json:"params,omitempty"`
 	Result     json.RawMessage `json:"result,omitempty"`
@@ -191,7 +212,7 @@ func DecodeMessage(data []byte) (Message, error) {
 	if msg.VersionTag != wireVersion {
 		return nil, fmt.Errorf("invalid message version tag %q; expected %q", msg.VersionTag, wireVersion)
 	}
-	id, err := MakeID(msg.ID)
+	id, err := decodeID(msg.ID)
 	if err != nil {
 		return nil, err
 	}
